@@ -41,7 +41,7 @@ const (
 	c05Base     = int64(96) // first offset; 96+L.. crosses the 2->3 digit boundary of file names
 	c05MaxRd    = 2         // readers a sequence may hold open
 	c05Horizon  = 40 // poll periods (ticks) a reader gets to deliver bytes that are present
-	c05Settle   = 5  // poll periods after every event
+	c05Settle   = 3  // poll periods after every event
 )
 
 type c05Cfg struct {
@@ -267,6 +267,7 @@ func (e *c05Env) awaitExit(r *c05Reader) {
 // and this goroutine parks for ever (the bubble is abandoned).
 func (e *c05Env) spinUntil(resetLike bool, cond func() bool) {
 	blockedRounds := 0
+	var t0, lastSample int64
 	for spins := 1; ; spins++ {
 		if cond() {
 			return
@@ -289,6 +290,15 @@ func (e *c05Env) spinUntil(resetLike bool, cond func() bool) {
 		if spins%1024 != 0 {
 			continue
 		}
+		// pacing only (not an oracle): look at the goroutine states every few ms of waiting
+		now := wallNow()
+		if t0 == 0 {
+			t0, lastSample = now, now
+		}
+		if now-lastSample < 4000 {
+			continue
+		}
+		lastSample = now
 		all, mtx := bubbleBlocked()
 		if all && len(mtx) > 0 {
 			blockedRounds++
@@ -315,13 +325,17 @@ func (e *c05Env) spinUntil(resetLike bool, cond func() bool) {
 	}
 }
 
+var c05StackBuf []byte
+
 var c05Never = make(chan struct{}) // created outside every bubble: parking on it is not "durably blocked"
 
 // bubbleBlocked inspects the goroutines of the calling goroutine's bubble: are all the
 // others blocked, and which of them are blocked on a mutex (their repo frames)?
 func bubbleBlocked() (all bool, mutexBlocked []string) {
-	buf := make([]byte, 1<<20)
-	buf = buf[:runtime.Stack(buf, true)]
+	if c05StackBuf == nil {
+		c05StackBuf = make([]byte, 4<<20)
+	}
+	buf := c05StackBuf[:runtime.Stack(c05StackBuf, true)]
 	blocks := strings.Split(string(buf), "\n\n")
 	tag := ""
 	if i := strings.Index(blocks[0], "synctest bubble "); i >= 0 {
@@ -377,9 +391,13 @@ func bubbleBlocked() (all bool, mutexBlocked []string) {
 
 func (e *c05Env) newChannel() Channel {
 	if e.disk() {
-		return NewStoreChannel(StorerConf{InputId: "c05", Dir: e.dir, MaxSize: e.cfg.Max, LogSize: e.cfg.L + 16})
+		ch := NewStoreChannel(StorerConf{InputId: "c05", Dir: e.dir, MaxSize: e.cfg.Max, LogSize: e.cfg.L + 16})
+		ch.(*StoreChannel).storer.VerifSetReadBufSize(8192)
+		return ch
 	}
-	return NewMemoryChannel(MemoryConf{InputId: "c05", MaxSize: e.cfg.Max, LogSize: e.cfg.L})
+	ch := NewMemoryChannel(MemoryConf{InputId: "c05", MaxSize: e.cfg.Max, LogSize: e.cfg.L})
+	ch.(*MemoryChannel).readBufSize = 8192
+	return ch
 }
 
 func (e *c05Env) newID() string {
@@ -943,6 +961,10 @@ func (e *c05Env) apply(op string) {
 	case op == "aof":
 		e.lastOp = op
 		e.opAof()
+	case op == "aofD": // new writer + 2L+3 bytes (three segments) as one step
+		e.lastOp = "aof"
+		e.opAof()
+		e.feed(2*e.cfg.L + 3)
 	case op == "eof":
 		e.lastOp = op
 		e.opEOF()
@@ -1078,7 +1100,7 @@ func (e *c05Env) enabled(tier string) ([]string, map[string]bool) {
 		ops = append(ops, "rdbH")
 	}
 	if e.w == nil || e.w.kind == "aof" {
-		ops = append(ops, "aof")
+		ops = append(ops, "aof", "aofD")
 	}
 	if e.w != nil {
 		ops = append(ops, "f1", "fa", "fb", "fc", "fd", "eof")
@@ -1230,13 +1252,12 @@ func (e *c05Env) probes() {
 		}
 	}
 	if v.l >= 0 {
-		for _, x := range []int64{v.l - 1, v.l, v.l + 1, v.r - 1, v.r, v.r + 1, (v.l + v.r) / 2} {
+		for _, x := range []int64{v.l - 1, v.l, v.r, v.r + 1, (v.l + v.r) / 2} {
 			addx(x)
 		}
 		for _, b := range e.segBounds() {
 			addx(b - 1)
 			addx(b)
-			addx(b + 1)
 		}
 	}
 	if v.rdbL >= 0 {
@@ -1430,7 +1451,7 @@ func runC05(t *testing.T, rep *mc.Reporter) {
 		return
 	}
 
-	depth := 4
+	depth := 5
 	if tier == "thorough" {
 		depth = 6
 	}
